@@ -118,6 +118,17 @@ func runC17(c *core.Ctx) {
 	unread := r.P(0.4)
 	twin := mon.NewSketch(exact, m1.M, srcSpec)
 	md := mon.NewSketchModel(m1, srcSpec)
+	if r.P(0.25) {
+		// an earlier life of the source (and of its twin): the same items with other weights, then Clear - memory
+		// retained by Clear must not be shared with what a conversion (in particular the identity one) returns
+		for _, k := range []mon.Sketch{src, twin} {
+			for _, it := range items {
+				k.I().AddWithCount(it.V, it.W+1.5)
+			}
+			k.I().Clear()
+		}
+		c.Count("source.used_and_cleared_before", 1)
+	}
 	for _, it := range items {
 		c.SigF(it.V)
 		c.SigF(it.W)
@@ -260,6 +271,9 @@ func runC17(c *core.Ctx) {
 			}
 			res.I().Add(m1.ClampIn(centre * 3))
 			res.I().AddWithCount(-m1.ClampIn(centre), 2)
+			for i := 0; i < 3 && i < len(items); i++ {
+				res.I().AddWithCount(items[r.Intn(len(items))].V, 2.5) // into bins (pages) both may hold
+			}
 			if !rwFirst {
 				res.I().Reweight(2)
 			}
